@@ -1,5 +1,6 @@
 import QipVerif.Lemmas.ConcatTop
 import QipVerif.Lemmas.ConcatCont
+import QipVerif.Lemmas.ConcatPoints
 /-!
 # C12 — compiled control pulses are exactly the scheduled instruction waveforms
 
@@ -101,6 +102,30 @@ theorem continuous_channel_is_schedule (byTol : Bool) (τ : Rat) (hτ : 0 < τ) 
   | (s, w) :: rest, _ =>
     exact ⟨_, _, compiledChannel_eq byTol τ hτ pm final ms hms _ (valid_of_chain_sep hc hs) hfin,
       compiled_continuous τ hτ pm final ms hms s w rest hc hcnt⟩
+
+/-- **Every channel, also one mixing discrete and continuous instructions.**  Pair every coefficient with the grid
+point it was appended with (`pairsOf`: for a channel starting with a discrete instruction coefficient `k` belongs to grid
+point `k+1`, otherwise to grid point `k`).  Then every pair is `PointExplained`: inside the window `(s, s+duration]` of an
+instruction it is one of that instruction's points with the coefficient the instruction attaches to it (amplitude at the
+end of a rectangular pulse, slot value at the slot's right end, sample at its sample time); outside all windows the
+coefficient is 0.  Conversely every point of every instruction is present.  No assumption on the pulse kinds. -/
+theorem every_channel_points_are_schedule (byTol : Bool) (τ : Rat) (hτ : 0 < τ) (pm : Mode) (final ms : Rat)
+    (hms : 0 < ms) (s : Rat) (w : Wave) (rest : List (Rat × Wave))
+    (hc : Chain 0 ((s, w) :: rest)) (hs : Sep byTol τ true 0 ((s, w) :: rest)) (hfin : endOf 0 ((s, w) :: rest) ≤ final) :
+    ∃ g c, compiledChannel byTol τ pm final ms ((s, w) :: rest) = .ok (g, c) ∧
+      (∀ xv ∈ pairsOf w.mode g c, PointExplained ((s, w) :: rest) xv) ∧
+      (∀ sw ∈ (s, w) :: rest, ∀ yc ∈ sw.2.points, (sw.1 + yc.1, yc.2) ∈ pairsOf w.mode g c) :=
+  ⟨_, _, compiledChannel_eq byTol τ hτ pm final ms hms _ (valid_of_chain_sep hc hs) hfin,
+    compiled_points τ hτ pm final ms hms s w rest hc⟩
+
+-- non-vacuity (mixed): a rectangular pulse, then a sampled continuous pulse after a gap, on one channel
+example :
+    (compiledChannel false (1/1000000) .discrete 8 1
+        [(0, .scalar 2 (1/2)), (4, .arr [0, 1, 2] [0, 3, 0])]).toOption
+      = some ([0, 2, 3, 5, 6, 8], [1/2, 0, 3, 0, 0]) ∧
+    (Wave.scalar 2 (1/2)).points = [(2, 1/2)] ∧ (Wave.arr [0, 1, 2] [0, 3, 0]).points = [(1, 3), (2, 0)] ∧
+    pairsOf .discrete [0, 2, 3, 5, 6, 8] [1/2, 0, 3, 0, 0] = [(2, 1/2), (3, 0), (5, 3), (6, 0), (8, 0)] := by
+  decide +kernel
 
 -- non-vacuity (continuous): two sampled pulses, gap 2 <= 3 steps (arange branch) — compiled arrays
 example :
